@@ -14,10 +14,15 @@ OMEN_MODELS = [
          ep={'a': 0, 'b': 0}, ln=[10, 0, 1, 2, 3]),
     dict(ngram=3, alphabet=['a', 'b'], ip={'aa': 0, 'ab': 1, 'ba': 2}, cp={'aaa': 0, 'aab': 1, 'aba': 0, 'baa': 1, 'abb': 2, 'bab': 1},
          ep={'aa': 0, 'ab': 0, 'ba': 0}, ln=[10, 10, 1, 0, 2]),
+    # several initial n-grams on the SAME level (the position saved on a quit is an index into that level's list: the list must
+    # come back in the same order in the process that resumes)
+    dict(ngram=2, alphabet=['a', 'b', 'c', 'd', 'e'], ip={'a': 0, 'b': 0, 'c': 0, 'd': 1, 'e': 1},
+         cp={'aa': 0, 'ab': 1, 'ba': 0, 'bc': 1, 'ca': 0, 'cd': 1, 'da': 0, 'ea': 0, 'eb': 1},
+         ep={'a': 0, 'b': 0, 'c': 0, 'd': 0, 'e': 0}, ln=[10, 0, 1]),
 ]
 
 
-def make(rng, path, with_m=True, m_last=False):
+def make(rng, path, with_m=True, m_last=False, omen_model=None):
     for attempt in range(200):
         # groups of several equally probable values (a pre-terminal then holds several guesses per first transition: a status
         # request can land between them) - the pre-terminal probabilities stay distinct
@@ -40,7 +45,7 @@ def make(rng, path, with_m=True, m_last=False):
             if rng.random() < 0.4:
                 omen_prob.insert(0, (0, round(rng.uniform(0.9, 1.0), 6)))
         base.sort(key=lambda x: -x[1])
-        rulesets.write_ruleset(path, terms, base, omen_prob=omen_prob, omen=rng.choice(OMEN_MODELS),
+        rulesets.write_ruleset(path, terms, base, omen_prob=omen_prob, omen=(OMEN_MODELS[omen_model] if omen_model is not None else rng.choice(OMEN_MODELS)),
                                omen_keyspace=[(0, 1), (1, 3), (2, 3)], uuid='11111111-2222-3333-4444-%012d' % rng.randint(0, 10 ** 11))
         pcfg = ptq.load_pcfg(path)
         probs = [it['prob'] for it, _ in ptq.run_history(pcfg, [], with_queue=False)['sessions'][0]['ev']]
